@@ -2,6 +2,7 @@ package rules
 
 import (
 	"fmt"
+	"go/token"
 	"go/types"
 
 	"golang.org/x/tools/go/ssa"
@@ -22,6 +23,7 @@ func c10(c *Ctx) {
 	c10lifecycle(c)
 	c10writer(c)
 	c10caller(c)
+	c10entries(c)
 }
 
 // userDyn: dynamic calls of the user-supplied functions (parameters, captured parameters, struct fields holding them).
@@ -579,4 +581,80 @@ func isZeroSym(s *px.Sym) bool {
 		}
 	}
 	return false
+}
+
+// c10entries: entry-point agreement (options forwarded) and ForEach's wait loop.
+func c10entries(c *Ctx) {
+	rule := "C10.R6"
+	sp := c.P.SSAPkg(mrPkg)
+	if sp == nil {
+		return
+	}
+	n := 0
+	for _, mem := range sortedMembers(sp) {
+		f, ok := mem.(*ssa.Function)
+		if !ok || f.Blocks == nil || !token.IsExported(f.Name()) {
+			continue
+		}
+		var optsP *ssa.Parameter
+		for _, prm := range f.Params {
+			if typeString(prm.Type()) == "[]"+mrPkg+".Option" {
+				optsP = prm
+			}
+		}
+		if optsP == nil {
+			continue
+		}
+		n++
+		ps := c.paths(rule, f, px.Config{MaxVisits: 2})
+		c.forall(rule, mrPkg+"."+f.Name()+"#opts", "the caller's options (workers, context) are forwarded to the implementation — every entry point honours WithWorkers / WithContext alike", f, ps, func(p *px.Path) (bool, string) {
+			if p.Exit != px.ExitReturn {
+				return true, ""
+			}
+			for _, e := range p.All(px.KindIs(px.EvCall)) {
+				for _, a := range e.Call.Args {
+					if isParamOrCell(a, optsP) {
+						return true, ""
+					}
+				}
+			}
+			return false, "the options parameter is never passed on: WithWorkers / WithContext are silently ignored by this entry point"
+		})
+	}
+	if n < 4 {
+		c.R.Undecided(rule, mrPkg+"#entries", "entry points with options are found", fmt.Sprintf("%d", n))
+	}
+	if f := c.fn(rule, mrPkg, "ForEach"); f != nil {
+		ps := c.paths(rule, f, px.Config{MaxVisits: 2})
+		c.forall(rule, mrPkg+".ForEach", "ForEach waits only on the panic channel and the collector: it returns when the collector is closed (all mappers done) and re-raises a mapper/generator panic with its value — it does not return early on anything else", f, ps, func(p *px.Path) (bool, string) {
+			for _, s := range p.All(px.KindIs(px.EvSelect)) {
+				if s.InGo {
+					continue
+				}
+				if s.SelN != 2 || !s.Blocking {
+					return false, fmt.Sprintf("the wait loop selects over %d cases (blocking=%v): an extra case lets ForEach return while mappers are still running — a later mapper panic is then swallowed and the pipeline goroutines leak", s.SelN, s.Blocking)
+				}
+			}
+			if p.Exit == px.ExitReturn {
+				// returning requires a receive from the collector that reported closed
+				ok := false
+				for _, b := range p.All(px.KindIs(px.EvBranch)) {
+					cnd := b.Cond.Strip(false)
+					if (cnd.Kind == px.KExtract || cnd.Kind == px.KRecv) && !b.Taken {
+						ok = true
+					}
+				}
+				if !ok {
+					return false, "returns without the collector having been closed"
+				}
+			}
+			if p.Exit == px.ExitPanic {
+				pn := p.First(px.KindIs(px.EvPanic))
+				if pn == nil || pn.Val.Strip(false).Kind != px.KRecv {
+					return false, "the re-raised value is not the one received from the panic channel"
+				}
+			}
+			return true, ""
+		})
+	}
 }
